@@ -218,8 +218,13 @@ def rules(model, rep):
                 good = to_num(dt) == want_dt
             except Exception:
                 good = False
-            # cap[0] must be the probed capacity
+            # cap[0] is the probed capacity (the log-initialisation rule decides that), so the probe's own first element is the same value
             probe0 = Sym(("sub", Sym(("call", "pfunc", ())), lift(0)))
+            if not good:
+                try:
+                    good = to_num(dt) == to_num(probe0) / to_num(cur) * lift(3.6)
+                except Exception:
+                    good = False
         else:
             want_dt = Sym(("sub", vkey(phases), vkey(want_ph)))
             good = vkey(dt) == vkey(want_dt)
